@@ -1539,6 +1539,25 @@ class Exec(Engine):
                 st.assume(T.is_VObj(v.t))
                 st.assume(T.tag(v.t) == T.TAG["obj"])
             st.env[g] = v
+        start = c.hooks.get("start_at_assign")
+        if start:
+            # Slice verification: the obligations are stated for every run that reaches the (top-level) assignment of `start`,
+            # whatever the statements before it computed: they are skipped and every name they assign is an arbitrary value
+            # (an over-approximation of the states reaching that point; early exits before it are outside the claim).
+            idx = None
+            for k_, s_ in enumerate(body):
+                tg = getattr(s_, "targets", None) or ([s_.target] if isinstance(s_, (ast.AnnAssign, ast.AugAssign)) else [])
+                if isinstance(s_, (ast.Assign, ast.AnnAssign)) and any(isinstance(t_, ast.Name) and t_.id == start for t_ in tg):
+                    idx = k_
+                    break
+            if idx is None:
+                rep.missing = f"no top-level assignment of {start!r} to start the slice at"
+                return rep
+            for nm_ in sorted(self.assigned_names(body[:idx])):
+                kind_ = c.types.get(nm_)
+                st.env[nm_] = fresh(kind_, nm_) if kind_ in ("int", "bool", "real", "str") else fresh("V", nm_)
+            rep.log.append(f"slice: statements before the assignment of {start!r} (line {body[idx].lineno}) are skipped; the names they assign are arbitrary")
+            body = _TopList(body[idx:])
         self._rg_contract = c if (c.rely or c.guar) else None
         if c.setup:
             c.setup(self, fr)
